@@ -102,6 +102,7 @@ type sshCase struct {
 	client string // none | stock-unknown | stock-good | skip-unknown | skip-good
 	token  string // right | wrong | absent
 	user   string
+	lp     string // Login server plugin: "" (none configured) | same | reject | user (rewrites user to plug-user)
 }
 
 type sshRes struct {
@@ -114,6 +115,25 @@ type sshRes struct {
 func runSSHCase(idx int, addr, tmp string, akFile string, good ssh.Signer, sc sshCase) sshRes {
 	var res sshRes
 	res.kind = sc.keys + "/" + sc.client + "/" + sc.token
+	if sc.lp != "" {
+		res.kind += "/login-plugin-" + sc.lp
+	}
+	var plug *plugStub
+	if sc.lp != "" {
+		ps, perr := newPlugStub(addr)
+		if perr != nil {
+			res.err = perr
+			return res
+		}
+		plug = ps
+		defer plug.close()
+		switch sc.lp {
+		case "reject":
+			plug.setLogin(plugBehaviour{kind: "reject"})
+		case "user":
+			plug.setLogin(plugBehaviour{kind: "rewrite", setUser: true, user: "plug-user"})
+		}
+	}
 	akf := ""
 	switch sc.keys {
 	case "file":
@@ -128,6 +148,9 @@ func runSSHCase(idx int, addr, tmp string, akFile string, good ssh.Signer, sc ss
 			c.SSHTunnelGateway.BindPort = hx.FreePort(addr)
 			c.SSHTunnelGateway.AuthorizedKeysFile = akf
 			c.SSHTunnelGateway.AutoGenPrivateKeyPath = filepath.Join(tmp, "autogen_ssh_host_key")
+			if plug != nil {
+				c.HTTPPlugins = []v1.HTTPPluginOptions{{Name: "c04-login-stub", Addr: plug.addr, Path: "/handler", Ops: []string{"Login"}}}
+			}
 		})
 		if err == nil {
 			break
@@ -184,6 +207,7 @@ func runSSHCase(idx int, addr, tmp string, akFile string, good ssh.Signer, sc ss
 	ts := time.Now().Unix()
 
 	sshOK, session, proxy, pass, nsess := false, false, false, false, 0
+	obsUser := ""
 	cli, err := ssh.Dial("tcp", gw, ccfg)
 	if err == nil {
 		sshOK = true
@@ -210,7 +234,7 @@ func runSSHCase(idx int, addr, tmp string, akFile string, good ssh.Signer, sc ss
 				ss := s.Svc.VerifC04Sessions()
 				names := s.Svc.VerifC04ProxyNames()
 				if len(ss) > 0 {
-					session, pass = true, ss[0].AlwaysPass
+					session, pass, obsUser = true, ss[0].AlwaysPass, ss[0].User
 				}
 				for _, n := range names {
 					if strings.HasSuffix(n, proxyName) {
@@ -249,10 +273,34 @@ func runSSHCase(idx int, addr, tmp string, akFile string, good ssh.Signer, sc ss
 			"case": fmt.Sprintf("frps auth.token=%q sshTunnelGateway.authorizedKeysFile=%s; ssh client mode %s (skip = no \"none\" probe, straight to publickey with a self-generated ed25519 key); command: tcp --proxy_name %s --remote_port N%s",
 				hx.DefaultToken, sc.keys, sc.client, proxyName, map[bool]string{true: " --token " + token, false: ""}[token != ""])})
 	}
+	pool := int64(1)
+	plugTerm := "AuLPlugSame"
+	if plug != nil {
+		seen, ok := plug.lastLogin()
+		if ok { // what the virtual client really sent
+			ts, pool = seen.TS, seen.Pool
+		}
+		switch sc.lp {
+		case "reject":
+			plugTerm = "AuLPlugReject"
+		case "user":
+			key := ownKey(token, ts)
+			if ok {
+				key = seen.Key
+			}
+			plugTerm = fmt.Sprintf("(AuLPlugRewrite (c4L [] %s %d %s %d %s %s))", hx.HxS(key), ts, hx.HxS("plug-user"), pool,
+				hx.HxS("ssh-tunnel"), hx.Bool(sc.keys != "nofile"))
+		}
+		if sshOK && !ok {
+			res.fail = append(res.fail, map[string]any{"key": "ssh-login-plugin-not-consulted",
+				"what": "a Login server plugin is configured but was not consulted for the login of an ssh tunnel gateway session",
+				"case": fmt.Sprintf("authorizedKeysFile=%s client=%s token=%s plugin=%s session=%v", sc.keys, sc.client, sc.token, sc.lp, session)})
+		}
+	}
 	ht := fmt.Sprintf("[(%d, %s)]", ts, hx.HxS(ownKey(hx.DefaultToken, ts)))
-	res.text = fmt.Sprintf("CSsh (c4CFG AuToken %s [] %d %d) %s %s %s %s %s %d 1 %s %s %s %s %d",
+	res.text = fmt.Sprintf("CSsh (c4CFG AuToken %s [] %d %d) %s %s %s %s %s %d %d %s %s %s %s %s %d %s",
 		hx.HxS(hx.DefaultToken), s.Cfg.Transport.MaxPoolCount, s.Cfg.Transport.HeartbeatTimeout, ht, keysTerm, hx.List(attempts),
-		hx.HxS(token), hx.HxS(sc.user), ts, hx.Bool(sshOK), hx.Bool(session), hx.Bool(proxy), hx.Bool(pass), nsess)
+		hx.HxS(token), hx.HxS(sc.user), ts, pool, plugTerm, hx.Bool(sshOK), hx.Bool(session), hx.Bool(proxy), hx.Bool(pass), nsess, hx.HxS(obsUser))
 	return res
 }
 
@@ -284,12 +332,18 @@ func runSSHGw(cfg *hx.RunCfg) error {
 				if g.Chance(0.3) {
 					u = "u" + fmt.Sprint(g.Intn(3))
 				}
-				cases = append(cases, sshCase{k, c, t, u})
+				cases = append(cases, sshCase{k, c, t, u, ""})
 			}
 		}
 	}
+	// gateway sessions with a Login server plugin configured: the plugin is consulted for them too
+	for _, lp := range []string{"same", "reject", "user"} {
+		cases = append(cases,
+			sshCase{"file", "skip-good", "absent", "", lp}, sshCase{"file", "stock-good", "wrong", "u1", lp},
+			sshCase{"nofile", "none", "right", "", lp}, sshCase{"nofile", "none", "wrong", "", lp})
+	}
 	// the first server generates the host key file; do it before the workers race for it
-	warm := runSSHCase(1000, "127.0.4.40", tmp, akFile, good, sshCase{"nofile", "none", "right", ""})
+	warm := runSSHCase(1000, "127.0.4.40", tmp, akFile, good, sshCase{"nofile", "none", "right", "", ""})
 	if warm.err != nil {
 		return warm.err
 	}
@@ -319,7 +373,9 @@ func runSSHGw(cfg *hx.RunCfg) error {
 			"Definition NSSHSESSIONKEY := Eval vm_compute in c04_ssh_session_by_key cases.\nPrint NSSHSESSIONKEY.\n" +
 			"Definition NSSHSESSIONTOKEN := Eval vm_compute in c04_ssh_session_by_token cases.\nPrint NSSHSESSIONTOKEN.\n" +
 			"Definition NSSHREFUSEDSSH := Eval vm_compute in c04_ssh_refused_at_ssh cases.\nPrint NSSHREFUSEDSSH.\n" +
-			"Definition NSSHREFUSEDLOGIN := Eval vm_compute in c04_ssh_refused_at_login cases.\nPrint NSSHREFUSEDLOGIN.\n",
+			"Definition NSSHREFUSEDLOGIN := Eval vm_compute in c04_ssh_refused_at_login cases.\nPrint NSSHREFUSEDLOGIN.\n" +
+			"Definition NSSHPLUGINREFUSED := Eval vm_compute in c04_ssh_plugin_refused cases.\nPrint NSSHPLUGINREFUSED.\n" +
+			"Definition NSSHPLUGINUSER := Eval vm_compute in c04_ssh_plugin_user cases.\nPrint NSSHPLUGINUSER.\n",
 	}
 	dist := map[string]int{}
 	fails := []map[string]any{}
